@@ -191,9 +191,10 @@ def traceDistSpec (evl : List α) : α := SpecOps.div (listSum (evl.map SpecOps.
 /-- … for commuting states with spectra `p`, `q` (same eigenbasis): the eigenvalues of `rho - sigma` are `p_i - q_i` -/
 def traceDistComm (p q : List α) : α := traceDistSpec ((p.zip q).map fun pq => pq.1 + -pq.2)
 
-/-- `get_Renyi_entropy` (`utils.py:219-225`) after `eigvalsh`: `log((EVL**alpha).sum()) / (1-alpha)` -/
+/-- `get_Renyi_entropy` (`utils.py:219-225`) after `eigvalsh`: `EVL = maximum(EVL, 0)` (round-off negative eigenvalues of low-rank
+states; numqi c3f38eb), `log((EVL**alpha).sum()) / (1-alpha)` -/
 def renyiSpec (alpha : α) (evl : List α) : α :=
-  SpecOps.div (Analytic.log (listSum (evl.map fun x => SpecOps.pow x alpha))) (1 + -alpha)
+  SpecOps.div (Analytic.log (listSum (evl.map fun x => SpecOps.pow (Analytic.max x 0) alpha))) (1 + -alpha)
 
 end spectral2
 
